@@ -252,9 +252,9 @@ theorem encodeW_length (gs : List Nat) (h : Valid gs) :
   · simp only [List.length_cons, fmt1Len]; omega
   · simp only [List.length_cons, flatMap_recWords_length, ranges_length gs h.small, fmt2Len]; omega
 
-/-- the two readers (model of `coverage.Read`, specification) on the emitted words -/
-theorem readW_encodeW (gs : List Nat) (h : Valid gs) :
-    readW (encodeW gs) = .ok gs.zipIdx ∧ specEntries (encodeW gs) = some gs.zipIdx := by
+/-- the model of `coverage.Read` on the emitted words, whatever follows them -/
+theorem readW_encodeW_append (gs : List Nat) (h : Valid gs) (tail : List Nat) :
+    readW (encodeW gs ++ tail) = .ok gs.zipIdx := by
   have hb := total_bound gs h
   unfold encodeW
   split
@@ -262,11 +262,8 @@ theorem readW_encodeW (gs : List Nat) (h : Valid gs) :
     simp only [fmt1Len, fmt2Len] at hf
     have hn : gs.length < 65536 := by omega
     rw [w16_of_lt hn]
-    constructor
-    · simp only [readW]
-      have := read1_spec [] gs 0 (-1) h.sorted (fun g _ => by omega)
-      rwa [List.append_nil] at this
-    · simp [specEntries]
+    simp only [List.cons_append, readW]
+    exact read1_spec tail gs 0 (-1) h.sorted (fun g _ => by omega)
   · rename_i hf
     simp only [fmt1Len, fmt2Len, Nat.not_le] at hf
     have e : (4 + 6 * rangeCountFrom 65535 gs - 4) / 6 = rangeCountFrom 65535 gs := by omega
@@ -281,24 +278,142 @@ theorem readW_encodeW (gs : List Nat) (h : Valid gs) :
         ranges_length _ h.small
       have hd := rangeCount_first g gs' hg
       simp only [List.length_cons] at hb hf
-      constructor
-      · simp only [readW]
-        rw [← hlen]
-        simp only [ranges]
-        have := read2_rangesLoop [] gs' g 0 g 1 (-1) (Nat.le_refl g) (by omega) h.sorted
-          (fun x hx => h.small x (by simp [hx])) hg (by omega) (by omega)
-        rw [List.append_nil] at this
-        rw [this]
-        have e4 : g + 1 - g = 1 := by omega
-        simp [e4, List.zipIdx_cons]
-      · simp only [specEntries]
-        rw [← hlen]
-        simp only [ranges]
-        have := specRecs_rangesLoop [] gs' g 0 g 1 (Nat.le_refl g) (by omega) h.sorted
-          (fun x hx => h.small x (by simp [hx])) hg (by omega)
-        rw [List.append_nil] at this
-        rw [this]
-        have e4 : g + 1 - g = 1 := by omega
-        simp [e4, List.zipIdx_cons]
+      simp only [List.cons_append, readW]
+      rw [← hlen]
+      simp only [ranges]
+      rw [read2_rangesLoop tail gs' g 0 g 1 (-1) (Nat.le_refl g) (by omega) h.sorted
+        (fun x hx => h.small x (by simp [hx])) hg (by omega) (by omega)]
+      have e4 : g + 1 - g = 1 := by omega
+      simp [e4, List.zipIdx_cons]
+
+/-- the two readers (model of `coverage.Read`, specification) on the emitted words -/
+theorem readW_encodeW (gs : List Nat) (h : Valid gs) :
+    readW (encodeW gs) = .ok gs.zipIdx ∧ specEntries (encodeW gs) = some gs.zipIdx := by
+  constructor
+  · have := readW_encodeW_append gs h []
+    rwa [List.append_nil] at this
+  have hb := total_bound gs h
+  unfold encodeW
+  split
+  · rename_i hf
+    simp only [fmt1Len, fmt2Len] at hf
+    have hn : gs.length < 65536 := by omega
+    rw [w16_of_lt hn]
+    simp [specEntries]
+  · rename_i hf
+    simp only [fmt1Len, fmt2Len, Nat.not_le] at hf
+    have e : (4 + 6 * rangeCountFrom 65535 gs - 4) / 6 = rangeCountFrom 65535 gs := by omega
+    simp only [fmt2Len, e]
+    have hr : rangeCountFrom 65535 gs < 65536 := by omega
+    rw [w16_of_lt hr]
+    cases gs with
+    | nil => simp [rangeCountFrom] at hf
+    | cons g gs' =>
+      have hg : g < 65536 := h.small g (by simp)
+      have hlen : (ranges (g :: gs')).length = rangeCountFrom 65535 (g :: gs') :=
+        ranges_length _ h.small
+      have hd := rangeCount_first g gs' hg
+      simp only [List.length_cons] at hb hf
+      simp only [specEntries]
+      rw [← hlen]
+      simp only [ranges]
+      have := specRecs_rangesLoop [] gs' g 0 g 1 (Nat.le_refl g) (by omega) h.sorted
+        (fun x hx => h.small x (by simp [hx])) hg (by omega)
+      rw [List.append_nil] at this
+      rw [this]
+      have e4 : g + 1 - g = 1 := by omega
+      simp [e4, List.zipIdx_cons]
+
+/-! ### from a Go `coverage.Table` (a map, iterated in any order) to the glyph list -/
+
+/-- the entries of the table `{gs[i] ↦ i}` -/
+def tableOf (gs : List Nat) : List (Nat × Int) := gs.zipIdx.map fun p => (p.1, (p.2 : Int))
+
+theorem revOf_fold : ∀ (m : List (Nat × Int)) (rev0 : List Nat),
+    (∀ e ∈ m, 0 ≤ e.2 ∧ e.2 < (rev0.length : Int)) → (m.map (·.2)).Nodup →
+    ∃ rev, m.foldl revStep (.ok rev0) = .ok rev ∧
+      rev.length = rev0.length ∧ (∀ e ∈ m, rev[e.2.toNat]? = some e.1) ∧
+      (∀ j, (∀ e ∈ m, e.2.toNat ≠ j) → rev[j]? = rev0[j]?)
+  | [], rev0, _, _ => ⟨rev0, rfl, rfl, by simp, fun _ _ => rfl⟩
+  | e :: m, rev0, hr, hnd => by
+    obtain ⟨h0, h1⟩ := hr e (by simp)
+    simp only [List.map_cons, List.nodup_cons] at hnd
+    simp only [List.foldl_cons, revStep]
+    have hcond : ¬ (e.2 < (0 : Int) ∨ e.2 ≥ Int.ofNat rev0.length) := by
+      simp only [Int.ofNat_eq_natCast]; omega
+    rw [if_neg hcond]
+    obtain ⟨rev, hf, hl, hm, hu⟩ := revOf_fold m (rev0.set e.2.toNat e.1)
+      (fun e' he' => by
+        have := hr e' (by simp [he'])
+        rw [List.length_set]; exact this)
+      hnd.2
+    refine ⟨rev, hf, by rw [hl, List.length_set], ?_, ?_⟩
+    · intro e' he'
+      rw [List.mem_cons] at he'
+      rcases he' with rfl | he'
+      · -- not overwritten later: its index does not occur in `m`
+        rw [hu e'.2.toNat (fun e'' he'' heq => by
+          apply hnd.1
+          rw [List.mem_map]
+          refine ⟨e'', he'', ?_⟩
+          have h2 := (hr e'' (by simp [he''])).1
+          omega)]
+        exact List.getElem?_set_self (by omega)
+      · exact hm e' he'
+    · intro j hj
+      rw [hu j (fun e' he' => hj e' (by simp [he']))]
+      exact List.getElem?_set_ne (hj e (by simp))
+
+/-- Whatever order the Go map is iterated in, `encInfo` computes the glyph list of a valid table. -/
+theorem revOf_table (gs : List Nat) (m : List (Nat × Int)) (hp : m.Perm (tableOf gs)) :
+    revOf m = .ok gs := by
+  have hlen : m.length = gs.length := by
+    rw [hp.length_eq]; simp [tableOf]
+  have hmem : ∀ e, e ∈ m ↔ ∃ i, i < gs.length ∧ e = (gs[i]?.getD 0, (i : Int)) := by
+    intro e
+    rw [hp.mem_iff]
+    simp only [tableOf, List.mem_map]
+    constructor
+    · rintro ⟨p, hp', rfl⟩
+      obtain ⟨g, i⟩ := p
+      have := List.mem_zipIdx hp'
+      simp only [Nat.zero_le, Nat.zero_add, Nat.sub_zero, true_and] at this
+      refine ⟨i, this.1, ?_⟩
+      simp [this.2, List.getElem?_eq_getElem this.1]
+    · rintro ⟨i, hi, rfl⟩
+      refine ⟨(gs[i], i), ?_, by simp [List.getElem?_eq_getElem hi]⟩
+      rw [List.mk_mem_zipIdx_iff_le_and_getElem?_sub]
+      simp [List.getElem?_eq_getElem hi]
+  have hnd : (m.map (·.2)).Nodup := by
+    have : (m.map (·.2)).Perm ((tableOf gs).map (·.2)) := hp.map _
+    rw [this.nodup_iff]
+    have e : (tableOf gs).map (·.2) = (List.range gs.length).map (fun (i : Nat) => (i : Int)) := by
+      simp only [tableOf, List.map_map]
+      apply List.ext_getElem?
+      intro j
+      by_cases hj : j < gs.length
+      · simp [List.getElem?_map, List.getElem?_zipIdx, List.getElem?_eq_getElem hj, List.getElem?_range hj]
+      · rw [List.getElem?_eq_none (by simp; omega), List.getElem?_eq_none (by simp; omega)]
+    rw [e]
+    exact List.Pairwise.map (fun (i : Nat) => (i : Int))
+      (fun a b h => by intro hc; exact h (Int.ofNat.inj hc)) List.nodup_range
+  obtain ⟨rev, hf, hl, hm, _⟩ := revOf_fold m (List.replicate m.length 0)
+    (fun e he => by
+      obtain ⟨i, hi, rfl⟩ := (hmem e).mp he
+      simp only [List.length_replicate]
+      omega)
+    hnd
+  unfold revOf
+  rw [hf]
+  congr 1
+  apply List.ext_getElem?
+  intro j
+  by_cases hj : j < gs.length
+  · have := hm (gs[j]?.getD 0, (j : Int)) ((hmem _).mpr ⟨j, hj, rfl⟩)
+    simp only [Int.toNat_natCast] at this
+    rw [this, List.getElem?_eq_getElem hj]
+    simp
+  · rw [List.getElem?_eq_none (by rw [hl, List.length_replicate, hlen]; omega),
+      List.getElem?_eq_none (by omega)]
 
 end SfntV.Otl.Cov
